@@ -1,17 +1,68 @@
 """C06 — result completeness."""
 import os
+import resource
+import shutil
+import time
 
 from vlib import common
 
 
 def key_fn(case, obs, verdict):
     f = case.split(" ")
-    return "%s:%s" % (f[0], verdict.split(" ")[0])
+    why = verdict.split(":", 1)[1] if ":" in verdict else verdict
+    why = why.split(" ")[0]
+    if f[0] == "aggr":
+        return "aggr:%s:%s" % (f[1], why)           # format + what fails
+    if f[0] == "engine":
+        return "engine:%s:%s" % (f[1], why)
+    if f[0] == "signal":
+        return "signal:%s" % why                     # e.g. signal:exit-before-aggregator-close
+    if f[0] == "line":
+        return "line:ids-%s:%s" % ("on" if f[1] == "1" else "off", why)
+    return "%s:%s" % (f[0], why)
 
 
-RULE = "non-trivial: line/setters cases inside the guard of C06_line_roundtrip; distinct = distinct case lines"
-TRUSTED = []
-ASSUME = []
+def what_fn(case, obs, verdict):
+    f = case.split(" ")
+    if f[0] == "signal":
+        info = obs.split("info:", 1)[1] if "info:" in obs else ""
+        return "pandora stopped with SIG%s after %s ms: %s (%s)" % (f[1], f[2], verdict, info)
+    return verdict
+
+
+def build_pandora_verif(ctx):
+    """go build of harness/cmd/pandora-verif (cli.Run + test gun) into /var/tmp/pandora-verif-<pid>/."""
+    d = "/var/tmp/pandora-verif-%d" % os.getpid()
+    os.makedirs(d, exist_ok=True)
+    out = os.path.join(d, "pandora-verif")
+    t = time.time()
+    with common.Lock("gomod"):
+        common.sync_gomod()
+        rc, txt = common.sh(["go", "build", "-tags", "verif", "-o", out, "./cmd/pandora-verif"],
+                            cwd=common.HARNESS, env=common.goenv(), timeout=1200)
+    ctx.log("go build pandora-verif: rc=%d %.1fs" % (rc, time.time() - t))
+    if rc != 0:
+        p = ctx.write_replay("harness-build", "go build of cmd/pandora-verif (cli.Run + test gun) failed against the current tree\n\n" + txt)
+        ctx.brokens.append(("pandora-verif no longer builds against /repo", p))
+        shutil.rmtree(d, ignore_errors=True)
+        return None, None
+    return d, out
+
+
+RULE = ("non-trivial: line/setters cases inside the guard of C06_line_roundtrip; aggr/engine cases with at least 2 reports; "
+        "signal shots in which at least one report was complete before the cancel; distinct = distinct case lines")
+TRUSTED = [
+    "translator harness/cmd/translate phout (field keys compiled from /repo through the verif hook; go/ast pattern over cli.awaitPandoraTermination for gen_cli_signal_waits)",
+    "extraction: ExtrOcamlBasic only; OCaml driver ocaml/C06/main.ml + ocaml/common/conv.ml (zarith for decimal I/O; sample-of-id function duplicated from the Go harness; lazy-receive schedule reconstruction for trace acceptance)",
+    "correspondence harness harness/cmd/hC06: verif hook netsample.VerifAppendPhout/VerifNewSample, real netsample.NewPhout / aggregator.NewJSONLinesAggregator / NewEncoderAggregator on afero MemMapFs, real engine.Engine, pandora-verif subprocess (cli.Run + test gun with unbuffered side log)",
+    "modelled, not verified: Go channel/select/context semantics as atomic events; bufio, jsoniter, afero, the kernel's file semantics and signal delivery; I/O errors of the destination are outside the model",
+]
+ASSUME = [
+    "Go channels are linearizable FIFO queues; a non-blocking receive fails only on an empty buffer",
+    "context cancellation happens-before any later observation of ctx.Err()/ctx.Done()",
+    "bufio.Writer and the jsoniter stream deliver bytes in order; writes to the destination do not fail",
+    "encoding/json decides what a valid JSON value is (jsonlines)",
+]
 
 
 def run(ctx):
@@ -19,16 +70,34 @@ def run(ctx):
     ok_t = common.translate(ctx, "phout", "PhoutGen.v")
     model_ok = ok_t and ctx.coq(["Extract/ExtractC06.vo"], what="model+extraction")
     if model_ok:
-        ctx.properties(extra_files=[])
+        ctx.properties(extra_files=["Gen/Phout_bridge.v"])
     h = ctx.build_harness("hC06")
     m = ctx.ocaml_model("mC06", "C06_model", "C06") if model_ok else None
-    if h and m:
-        st = common.correspondence(ctx, h, m, key_fn=key_fn)
-        if st:
-            cov.update(st)
-        if ctx.brokens and not ctx.violations and ctx.quick() and not ctx.replay:
-            st2 = common.correspondence(ctx, h, m, key_fn=key_fn, tier="thorough", label="escalated")
-            if st2:
-                cov["escalated_evaluations"] = st2["evaluations"]
+    pdir, pbin = build_pandora_verif(ctx)
+    # the extracted list functions are not tail recursive: files of some 100 kB need a deep stack
+    try:
+        soft, hard = resource.getrlimit(resource.RLIMIT_STACK)
+        want = 2 << 30
+        resource.setrlimit(resource.RLIMIT_STACK, (want if hard == resource.RLIM_INFINITY else min(want, hard), hard))
+    except (ValueError, OSError):
+        pass
+    try:
+        if pbin:
+            os.environ["PANDORA_VERIF_BIN"] = pbin
+        else:
+            os.environ.pop("PANDORA_VERIF_BIN", None)
+        if h and m:
+            st = common.correspondence(ctx, h, m, key_fn=key_fn, what_fn=what_fn)
+            if st:
+                cov.update(st)
+            if ctx.brokens and not ctx.violations and not ctx.known_hits and ctx.quick() and not ctx.replay:
+                # a proof, bridge or the correspondence no longer checks: widen the search for a concrete failing input
+                os.environ["C06_SIGNAL_SHOTS"] = "12"
+                st2 = common.correspondence(ctx, h, m, key_fn=key_fn, what_fn=what_fn, tier="thorough", label="escalated")
+                if st2:
+                    cov["escalated_evaluations"] = st2["evaluations"]
+    finally:
+        if pdir:
+            shutil.rmtree(pdir, ignore_errors=True)
     cov["trusted_base_extra"] = list(TRUSTED)
     ctx.finish(cov, assumptions=list(ASSUME))
